@@ -36,6 +36,11 @@ CHECKS = {
    note="Trusted: the 30-line three-valued evaluator; atoms are `col = 1` over columns holding 1/0/NULL. FALSE vs NULL is separated because the tree space is closed under negated wrappers.",
    technique=TECH+"all condition trees up to a size bound and all call sequences up to depth 3, oracle = three-valued truth tables on a real SQLite engine",
    ref="3.6"),
+ "C07": dict(
+   text="Explicit-state BFS over builder-call histories of the real SelectStatement (57-op menu: columns, 12 expression kinds incl. CASE / functions / custom templates / scalar subqueries, window functions with frames, DISTINCT, FROM table / alias / subquery / VALUES, every join type, and_where / cond_where / IN-subquery / EXISTS, GROUP BY, HAVING, UNION / INTERSECT / EXCEPT, ORDER BY with NULLS and FIELD, LIMIT / OFFSET, CTE) to depth 4 (quick) / 5 (thorough), and of INSERT (VALUES / SELECT / DEFAULT VALUES / REPLACE / 11 ON CONFLICT variants / RETURNING), UPDATE (SET, FROM, WHERE, ORDER BY, LIMIT, RETURNING) and DELETE to depth 4 / 5. In every state whose independently written, fully explicit reference rendering the real SQLite engine accepts, to_string and build+bind are executed on the engine inside a rolled-back transaction and must give the reference's result rows (ordered when ORDER BY is present), RETURNING rows, changes() and table contents.",
+   note="Trusted: the explicit reference renderer (qmodel.rs / dml.rs), written from SQLite's syntax diagrams; states whose REFERENCE the engine rejects are out of domain (counted by reason; every op class must occur in executed states or the run is a machinery failure). Nested statements come from a representative pool of 4. Two genuine defects repaired by fix: commits.",
+   technique=TECH+"BFS over builder-call histories with state deduplication, oracle = differential execution on a real SQLite engine against a reference rendering",
+   ref="3.7"),
  "C10": dict(
    text="Explicit-state BFS over ALL histories of a 27-operation INSERT alphabet (columns / values / values_panic / values_from_panic / select_from / or_default_values*, column counts 0..3, row lengths 0..4) up to depth 6 (quick) / 8 (thorough) on the real InsertStatement, in lock-step with a plain-list reference model. Per step: Result / panic vs the contract, error counts, statement unchanged after a rejection. Per state: rendering on 3 backends x {to_string, build} parsed back by an independent parser and compared with the model (rectangularity, call order, default-values form).",
    note="Trusted: the reference model of the documented contract (lists), the reference lexer and the 150-line INSERT parser. One genuine defect is a known finding (columns() after a source was accepted).",
